@@ -166,6 +166,16 @@ func checkC08(c c08Case) (ci caseInfo, err error) {
 			differ = true
 		}
 	}
+	for i := range c.A.Inner {
+		if i < len(c.B.Inner) && c.A.Inner[i] != c.B.Inner[i] {
+			differ = true
+			ci.label("size-token-respelled")
+		}
+	}
+	if len(c.A.Inner) != len(c.B.Inner) {
+		differ = true
+		ci.label("size-token-respelled")
+	}
 	ci.Nontrivial = differ
 	var ma, mb []*ast.DataMessage
 	var ea, eb, wa, wb []string
@@ -239,8 +249,8 @@ func genC08(t *rapid.T) c08Case {
 		// neighbour) depends on the lexer state once the sequence is no longer a valid message
 		c.Flip = false
 	}
-	c.A = genLayout(t, toks, true, invalid)
-	c.B = genLayout(t, toks, true, invalid)
+	c.A = genLayout(t, toks, true, invalid, true)
+	c.B = genLayout(t, toks, true, invalid, true)
 	return c
 }
 
